@@ -36,6 +36,7 @@ type Gen struct {
 	RefPkgs  []string // packages a reference may name (may include an unloaded one)
 	Names    []string // object names (references draw from the same alphabet unless RefNames is set)
 	RefNames []string // names a reference may use
+	ConstRefNames []string // names a constant reference may use (constant references denote enum objects)
 	Fields   []string // field names
 	Scalars  []string // scalar kinds
 	Leaves   int      // mask for leaf positions
@@ -166,7 +167,11 @@ func (g *Gen) leafOf(mask int) ast.Type {
 	case KRef:
 		return g.Ref()
 	case KConstRef:
-		return ast.NewConstantReferenceType(g.RefPkg(), g.RefName(), v.Str("constrefval", "x", "y"))
+		name := g.RefName()
+		if len(g.ConstRefNames) != 0 {
+			name = v.Str("constrefname", g.ConstRefNames...)
+		}
+		return ast.NewConstantReferenceType(g.RefPkg(), name, v.Str("constrefval", "x", "y"))
 	case KEnum:
 		return g.Enum()
 	case KConstScalar:
@@ -300,7 +305,7 @@ func Collect(t ast.Type, where string, out []RefPos) []RefPos {
 	case ast.KindStruct:
 		if t.Struct != nil {
 			for _, f := range t.Struct.Fields {
-				out = Collect(f.Type, where+"."+f.Name, out)
+				out = Collect(f.Type, where+".field", out)
 			}
 		}
 		// the union a struct was generated from is kept under a hint that jennies read
@@ -357,7 +362,7 @@ func CollectSchemas(schemas ast.Schemas) []RefPos {
 	var out []RefPos
 	for _, s := range schemas {
 		s.Objects.Iterate(func(name string, o ast.Object) {
-			out = Collect(o.Type, s.Package+"."+name, out)
+			out = Collect(o.Type, s.Package+".object", out)
 		})
 		if s.EntryPoint != "" {
 			out = append(out, RefPos{s.Package, s.EntryPoint, s.Package + ":entrypoint"})
